@@ -109,6 +109,7 @@ func (eu *executeUnit) run(ctx *risc.Context, app risc.Application, outBus *comp
 	if err != nil {
 		return false, 0, false, err
 	}
+	ctx.VerifExec(0, eu.runner.Pc, execution, memory)
 	if execution.Return {
 		return false, 0, true, err
 	}
